@@ -409,7 +409,8 @@ impl DOPRI5 {
                 k1.copy_from_slice(&k2);
                 y.copy_from_slice(&y1);
                 xold = x;
-                x = xph;
+                // x + (xend - x) can round to a neighbour of xend: land exactly
+                x = if last { xend } else { xph };
 
                 if let Some(solout) = solout.as_mut() {
                     let interpolant = if self.dense_output || event {
